@@ -34,14 +34,22 @@ Definition to_op (k : nat) (o : fop) : op :=
   end.
 
 (* ---- the two actions on the fetched node ---- *)
+Lemma params_eq_eq : forall a b, length b = length a -> params_eq a b = true -> a = b.
+Proof.
+  induction a as [|[n1 i1] a IH]; intros [|[n2 i2] b] L H; cbn in *; try discriminate; [reflexivity|].
+  apply Bool.andb_true_iff in H as [H H3]. apply Bool.andb_true_iff in H as [H1 H2].
+  apply beq_eq in H1. apply Nat.eqb_eq in H2. subst. f_equal. apply IH; [lia|exact H3].
+Qed.
+
 Lemma set_params_fields : forall n ps n', set_params n ps = Some n' ->
   node_hs n' = node_hs n /\ node_ls n' = node_ls n /\ node_mounted n' = node_mounted n /\ kids_eq n n' /\
-  (node_params n' = node_params n \/ (node_params n = [] /\ node_params n' = ps)).
+  node_params n' = Some ps /\ (node_params n = None \/ node_params n = Some ps).
 Proof.
-  intros [hs old lits pa wi mo ls] ps n' H. cbn in H. destruct old as [|o old'].
+  intros [hs old lits pa wi mo ls] ps n' H. cbn in H. destruct old as [o|].
+  - destruct (Nat.eqb (length o) (length ps)) eqn:L; [|discriminate]. cbn in H.
+    destruct (params_eq ps o) eqn:E; [|discriminate]. injection H as <-.
+    apply Nat.eqb_eq in L. rewrite (params_eq_eq ps o L E). unfold kids_eq. cbn. auto 10.
   - injection H as <-. cbn. unfold kids_eq. cbn. auto 10.
-  - destruct (Nat.eqb _ _ && params_eq ps (o :: old')); [|discriminate]. injection H as <-.
-    unfold kids_eq. auto 10.
 Qed.
 
 Definition R_add (hid : N) (ok : bool) (oh : option handler) : Prop :=
@@ -141,7 +149,7 @@ Definition P_wok (path : list ptok) (n : node) : Prop := ends_full path -> node_
 Definition gpart_ok (d : nat) (g : gpart) : Prop :=
   match g with GIdx j => (j < d)%nat | GNeg => False | GStr _ => True end.
 Definition P_bound (path : list ptok) (n : node) : Prop :=
-  (forall x, In x (node_params n) -> (snd x < length path)%nat) /\
+  (forall x, In x (node_plist n) -> (snd x < length path)%nat) /\
   (forall hid parts, node_hs n = Some (hid, Some parts) -> forall g, In g parts -> gpart_ok (length path) g).
 
 Definition Q_true (_ : nat) (_ : list pparam) (_ : nat) : Prop := True.
@@ -209,11 +217,11 @@ End OpInv.
 Lemma loc_add_fin : forall rb hid g fr n ps mi n', add_fin rb hid g fr n ps mi = Ok n' ->
   node_hs n = None /\ node_hs n' = Some (hid, if rb then rebase_group mi g else g) /\ node_ls n' = node_ls n /\
   node_mounted n' = node_mounted n /\
-  (node_params n' = node_params n \/ (node_params n = [] /\ node_params n' = ps)).
+  node_params n' = Some ps /\ (node_params n = None \/ node_params n = Some ps).
 Proof.
   intros rb hid g fr n ps mi n' H. unfold add_fin in H. destruct (node_hs n) eqn:HS; [discriminate|].
   destruct (set_params n ps) as [n1|] eqn:SP; [|discriminate]. injection H as <-.
-  destruct (set_params_fields _ _ _ SP) as (E1 & E2 & E3 & _ & E4). destruct n1. cbn in *. auto 10.
+  destruct (set_params_fields _ _ _ SP) as (E1 & E2 & E3 & _ & E4 & E5). destruct n1. cbn in *. auto 10.
 Qed.
 Lemma add_fin_panic_state : forall rb hid g fr n ps mi e n', add_fin rb hid g fr n ps mi = Panic e n' -> n' = n.
 Proof.
@@ -222,11 +230,11 @@ Proof.
 Qed.
 Lemma loc_listen_fin : forall l fr n ps mi n', listen_fin l fr n ps mi = Ok n' ->
   node_hs n' = node_hs n /\ node_ls n' = node_ls n ++ [l] /\ node_mounted n' = node_mounted n /\
-  (node_params n' = node_params n \/ (node_params n = [] /\ node_params n' = ps)).
+  node_params n' = Some ps /\ (node_params n = None \/ node_params n = Some ps).
 Proof.
   intros l fr n ps mi n' H. unfold listen_fin in H.
   destruct (set_params n ps) as [n1|] eqn:SP; [|discriminate]. injection H as <-.
-  destruct (set_params_fields _ _ _ SP) as (E1 & E2 & E3 & _ & E4). destruct n1. cbn in *. subst. auto 10.
+  destruct (set_params_fields _ _ _ SP) as (E1 & E2 & E3 & _ & E4 & E5). destruct n1. cbn in *. subst. auto 10.
 Qed.
 Lemma listen_fin_panic_state : forall l fr n ps mi e n', listen_fin l fr n ps mi = Panic e n' -> n' = n.
 Proof.
@@ -238,7 +246,7 @@ Proof. intros path n n' (_ & _ & _ & E) H. unfold P_flat in *. congruence. Qed.
 Lemma P_wok_loc : forall path n n', loc_eq n n' -> P_wok path n -> P_wok path n'.
 Proof. intros path n n' (E1 & _ & E3 & _) H X. unfold P_wok in *. rewrite E1, E3. auto. Qed.
 Lemma P_bound_loc : forall path n n', loc_eq n n' -> P_bound path n -> P_bound path n'.
-Proof. intros path n n' (E1 & E2 & _ & _) [H1 H2]. unfold P_bound. rewrite E1, E2. auto. Qed.
+Proof. intros path n n' (E1 & E2 & _ & _) [H1 H2]. unfold P_bound, node_plist in *. rewrite E1, E2. auto. Qed.
 
 Lemma frun_op_flat : forall root o, Inv P_flat [] root -> Inv P_flat [] (out_state (frun_op root o)).
 Proof.
@@ -333,8 +341,8 @@ Proof.
     { destruct H as [H| ->]; [exact H|split; [intros x []|intros hid' parts X; discriminate]]. }
     clear H. unfold P_bound in *. rewrite sk_length in *. destruct H' as [H1 H2].
     destruct (add_fin true hid g fr n ps' 0%nat) as [n'|e n'] eqn:E; cbn [out_state].
-    + apply loc_add_fin in E as (HS & E1 & _ & _ & E2). split.
-      * intros x Ix. destruct E2 as [E2|[_ E2]]; rewrite E2 in Ix; auto.
+    + apply loc_add_fin in E as (HS & E1 & _ & _ & E2 & _). split.
+      * intros x Ix. unfold node_plist in Ix. rewrite E2 in Ix. auto.
       * intros hid' parts X g0 Ig. rewrite E1 in X. cbn in X. injection X as _ ->.
         eapply group_parsed_ok; eauto.
     + apply add_fin_panic_state in E. subst. split; assumption.
@@ -344,8 +352,8 @@ Proof.
     { destruct H as [H| ->]; [exact H|split; [intros x []|intros hid' parts X; discriminate]]. }
     clear H. unfold P_bound in *. rewrite sk_length in *. destruct H' as [H1 H2].
     destruct (listen_fin l fr n ps' 0%nat) as [n'|e n'] eqn:E; cbn [out_state].
-    + apply loc_listen_fin in E as (E1 & _ & _ & E2). split.
-      * intros x Ix. destruct E2 as [E2|[_ E2]]; rewrite E2 in Ix; auto.
+    + apply loc_listen_fin in E as (E1 & _ & _ & E2 & _). split.
+      * intros x Ix. unfold node_plist in Ix. rewrite E2 in Ix. auto.
       * intros hid' parts X. rewrite E1 in X. eauto.
     + apply listen_fin_panic_state in E. subst. split; assumption.
 Qed.
